@@ -224,10 +224,11 @@ def numeric_layer(ctx):
 
 def cast_layer(ctx):
     lex = [0, 1, -5, True, False, Decimal('1.5'), Decimal('-2.50'), Decimal('1E+2'), Decimal('0.000'), '12', '-7', '+3', '1.5', '.5', '5.',
-           'abc', '', ' 1', '2020-01-02', '2020-02-30', '2020-1-2', '20200102', datetime.date(2020, 1, 2), datetime.date(1900, 1, 1)]
+           'abc', '', ' 1', '2E+1', '1e5', '1.5E-3', '1E', 'E5', '2020-01-02', '2020-02-30', '2020-1-2', '20200102', datetime.date(2020, 1, 2), datetime.date(1900, 1, 1)]
     for fn in ('int', 'decimal', 'str', 'date', 'bool'):
         fnmap(ctx, fn, [], [], lex, label='cast-' + fn)
-    ymd = [(2020, 2, 29), (2021, 2, 29), (2020, 13, 1), (2020, 0, 1), (0, 1, 1), (9999, 12, 31), (10000, 1, 1), (2020, 1, 0), (-1, 1, 1)]
+    ymd = [(2020, 2, 29), (2021, 2, 29), (2020, 13, 1), (2020, 0, 1), (0, 1, 1), (9999, 12, 31), (10000, 1, 1), (2020, 1, 0), (-1, 1, 1),
+           (2147483648, 1, 1), (2020, 2 ** 40, 1), (2020, 1, -2 ** 40), (10 ** 30, 1, 1), (2147483647, 12, 31), (-2147483649, 1, 1)]
     line_vals = []
     for y, m, d in ymd:
         ctx.check('cast-date-ymd', ['(fn "date" (i %d) (i %d) (i %d))' % (y, m, d)], lambda y=y, m=m, d=d: call('date', y, m, d))
